@@ -523,12 +523,19 @@ def _summ(v, depth):
         if isinstance(v, (set, frozenset)):
             items = sorted(items, key=repr)
         return [type(v).__name__, [_summ(x, depth + 1) for x in items[:20]]]
+    # helper objects (the trajectory cache, per-file records): their own scalar attributes are state too
+    own = {}
+    d = getattr(v, '__dict__', None)
+    if isinstance(d, dict) and depth < 2:
+        for k, x in sorted(d.items()):
+            if x is None or isinstance(x, (bool, int, float, str)):
+                own[k] = _summ(x, depth + 1)
     if hasattr(v, 'keys') and hasattr(v, '__len__'):
         try:
-            return [type(v).__name__, sorted(str(k) for k in v.keys())[:40]]
+            return [type(v).__name__, sorted(str(k) for k in v.keys())[:40], own]
         except Exception:  # noqa: BLE001
-            return [type(v).__name__]
-    return [type(v).__name__]
+            return [type(v).__name__, own]
+    return [type(v).__name__, own]
 
 
 def driver(alphabet, identified, max_traj, layout='single'):
